@@ -69,6 +69,7 @@ MechRefinesDefs(flags, twopl, stab) ==
 (*   "id"  : positions 1..n, flags in order                                *)
 (*   "rev" : positions 1..n, flags in reverse order                        *)
 (*   "gap" : positions 2,4,6,.. (9 for the fifth), flags rotated by one    *)
+(*   "hi"  : the highest positions 9-n+1 .. 9, flags in reverse order       *)
 GapPos(i, n) == IF 2 * i <= NSlots THEN 2 * i ELSE NSlots - (n - i)
 Present(crits, pres) ==
     LET n == Len(crits)
@@ -76,4 +77,5 @@ Present(crits, pres) ==
     IN  CASE pres = "id"  -> [i \in 1 .. n |-> f(i, i)]
           [] pres = "rev" -> [i \in 1 .. n |-> f(n - i + 1, n - i + 1)]
           [] pres = "gap" -> [i \in 1 .. n |-> LET j == (i % n) + 1 IN f(j, GapPos(j, n))]
+          [] pres = "hi"  -> [i \in 1 .. n |-> f(n - i + 1, NSlots - i + 1)]
 =============================================================================
